@@ -18,6 +18,7 @@ TStep ==
           \/ e.cmd = "delete" /\ Delete(e.a)
           \/ e.cmd = "chmod" /\ Chmod(e.a)
           \/ e.cmd = "setpath" /\ SetPath(e.path)
+          \/ e.cmd = "relink" /\ Relink
           \/ e.cmd = "locate" /\ Locate
                /\ res'.loc = e.obs.loc /\ res'.loc = e.obs.which /\ res'.loc = e.obs.sh /\ res'.loc = e.obs.spawn
           \/ e.cmd = "query" /\ CacheQuery
